@@ -25,6 +25,15 @@ def groups(n, seed):
         if i % 11 == 0:
             pk["validate_input"] = False
         rs = {"prob": family_spec(i, rng), "params": pk, "loglevel": ["WARNING", "INFO", "WARNING"][i % 3]}
+        if i % 6 == 5:
+            # exactly singular first Newton matrix (curvature -lamb_init): the linear solver's own failure path
+            from pygradflow.params import LinearSolverType
+            lam = [1.0, 2.0, 0.5][(i // 12) % 3]
+            rs["prob"] = ("saddle", int(rng.integers(0, 2 ** 31)), int(rng.integers(2, 4)), lam)
+            pk["lamb_init"] = lam
+            pk["linear_solver_type"] = LinearSolverType.LU
+            pk["step_solver_type"] = gen.STEPSOLVERS[(i // 12) % 4]
+            pk.pop("scaling_type", None)
         if i % 8 == 1:
             rs["scaling"] = ("random", int(rng.integers(0, 2 ** 31)), 4)
         if i % 10 == 7:
